@@ -76,7 +76,7 @@ CHECKS["C14"] = {
 CHECKS["C05"] = {
   "level": "model_checking",
   "technique": "TLA+ spec of framer, nondeterministic transport and two-phase deframer (Framing.tla) model-checked by TLC; every finished behaviour's chunk schedule replayed on MessageDeframer::read_framed / MessageFramer::write_framed through scripted AsyncRead/AsyncWrite",
-  "text": "TLC checks OutIsPrefixOfSent, AllDeliveredWhenConsumed, NoShortMessage, OverCapRefused over every chunking / pending / close behaviour of four small streams (both prefix widths, zero-length frames, an over-cap frame) and requires a counterexample for the weakened deframer; all schedules of two streams (tens of thousands; sampled to 40 000 in the quick tier) drive the real deframer and its returned messages, error/no-error outcome and consumption are compared with the model; streaming writer vs one-shot framing under partial writes; cap and 2^16 classes with real sizes under the counting allocator.",
+  "text": "TLC checks OutIsPrefixOfSent, AllDeliveredWhenConsumed, NoShortMessage, OverCapRefused over every chunking / pending / close behaviour of four small streams (both prefix widths, zero-length frames, an over-cap frame) and requires a counterexample for the weakened deframer; all schedules of two streams (tens of thousands; sampled to 40 000 in the quick tier) drive the real deframer and its returned messages, error/no-error outcome and consumption are compared with the model; streaming writer vs one-shot framing under partial writes; cap and 2^16 classes with real sizes under the counting allocator. Bodies of 65537 to 200000 bytes followed by three more frames are read under four coalescing schedules. The same message sequences also go over real sockets through FramedTransport (transport.rs): a 2-byte-prefix part followed by a 4-byte-prefix part in one stream, one write or pieces, after which the reader switches the frame mode or takes the read half and continues with its own MessageDeframer; FramedTransport::write must produce the same bytes as the spec's framing.",
   "design_ref": "DESIGN.md §5 C05",
   "note": "Streams of <= 15 wire bytes exhaustively; larger sizes only as length classes. Read timeouts of FramedTransport (a delay longer than the timeout) are outside this model.",
 }
